@@ -48,6 +48,15 @@ func c13Ops(seed int64, n int) []c13Op {
 		switch i % 6 {
 		case 0:
 			t, _ := Render(GenModel(rng, GenOpts{DSLValid: true, Conds: true, MaxDepth: 3}), rand.New(rand.NewSource(rng.Int63())))
+			switch rng.Intn(4) {
+			case 0:
+				// a character no lexer rule accepts (token recognition error), somewhere in the text
+				bad := []string{"$", "@", ";", "~", "^", "`", "\\", "€"}[rng.Intn(8)]
+				k := rng.Intn(len(t) + 1)
+				t = t[:k] + bad + t[k:]
+			case 1:
+				t = mutate(rng, t) // mostly parser-level errors
+			}
 			ops = append(ops, c13Op{Kind: "dsl", Text: t})
 		case 1:
 			// half of the printed models are arbitrary protobuf models (direct assignment in any position and
@@ -136,6 +145,61 @@ func c13Exec(op c13Op) (string, string) {
 	return "", ""
 }
 
+// c13Kept: a result handed back to the caller belongs to the caller: nothing a later (or concurrent) call
+// does may change it.  The values returned for DSL and merge operations (models and error values) are kept,
+// rendered at once, and rendered again after all other operations have run.
+type c13Kept struct {
+	idx       int
+	kind      string
+	err       error
+	errText   string
+	model     *openfgav1.AuthorizationModel
+	modelText string
+}
+
+func c13Keep(i int, op c13Op) *c13Kept {
+	k := &c13Kept{idx: i, kind: op.Kind}
+	safely(func() {
+		switch op.Kind {
+		case "dsl":
+			k.model, k.err = transformer.TransformDSLToProto(op.Text)
+		case "merge":
+			files := make([]transformer.ModuleFile, len(op.Names))
+			for j := range op.Names {
+				files[j] = transformer.ModuleFile{Name: op.Names[j], Contents: op.Texts[j]}
+			}
+			k.model, k.err = transformer.TransformModuleFilesToModel(files, "1.2")
+		default:
+			k = nil
+		}
+	})
+	if k == nil {
+		return nil
+	}
+	if k.err != nil {
+		k.errText = k.err.Error()
+	}
+	if k.model != nil {
+		k.modelText = canonModel(k.model)
+	}
+	return k
+}
+
+// changed reports what differs now from what was returned
+func (k *c13Kept) changed() string {
+	if k.err != nil {
+		if now := k.err.Error(); now != k.errText {
+			return "the error value returned by an earlier call reads differently after later calls: it was " + trunc(k.errText, 300) + " and is now " + trunc(now, 300)
+		}
+	}
+	if k.model != nil {
+		if now := canonModel(k.model); now != k.modelText {
+			return "the model returned by an earlier call was changed by later calls"
+		}
+	}
+	return ""
+}
+
 // c13Worker: runs in a child process. mode cold: the ops only; warm: after unrelated inputs;
 // race: all ops concurrently from 8 goroutines (this binary is built with -race).
 func c13Worker(mode string, seed int64, n int) {
@@ -180,7 +244,19 @@ func c13Worker(mode string, seed int64, n int) {
 				defer wg.Done()
 				order := rand.New(rand.NewSource(int64(g))).Perm(len(ops))
 				res := make([]string, len(ops))
+				var kept []*c13Kept
+				defer func() {
+					// values returned earlier are read again while other goroutines are still calling
+					for _, k := range kept {
+						if k.changed() != "" {
+							res[k.idx] = "CHANGED-AFTER-RETURN"
+						}
+					}
+				}()
 				for _, i := range order {
+					if k := c13Keep(i, ops[i]); k != nil {
+						kept = append(kept, k)
+					}
 					r, _ := c13Exec(ops[i])
 					res[i] = hashOf(r)
 					// one shared read-only model used by every goroutine
@@ -226,8 +302,12 @@ func init() {
 		n := c.Pick(300, 3000)
 		ops := c13Ops(c.Seed, n)
 		base := make([]string, len(ops))
+		var kept []*c13Kept
 		for i, op := range ops {
 			c.R.Evaluations++
+			if k := c13Keep(i, op); k != nil {
+				kept = append(kept, k)
+			}
 			r, frame := c13Exec(op)
 			base[i] = hashOf(r)
 			c.Dist("op_" + op.Kind)
@@ -244,6 +324,13 @@ func init() {
 			case "merge":
 				r := realMerge(op.Names, op.Texts, "1.2")
 				c.D.Add("corr:merge/sequential", mergeOp(op.Names, op.Texts, "1.2"), r.Out, map[string]any{"names": op.Names})
+			}
+		}
+		for _, k := range kept {
+			c.Dist("kept_results_reread")
+			if what := k.changed(); what != "" {
+				c.OracleFail("c13:result-aliasing", map[string]any{"op": k.kind, "index": k.idx, "text": ops[k.idx].Text, "seed": c.Seed, "n": n}, what, "")
+				break
 			}
 		}
 		self, _ := os.Executable()
